@@ -9,8 +9,9 @@
    record is read once; a watched entity is sent on the despawn channel exactly once, when it dies, and stops being
    watched; a poll schedules one reaction per registered despawn handle of every entity on the channel, consumes the
    entity's table entry (a despawn reactor fires at most once per watched entity) and empties the channel.
-   NOT proved: that RSeq holds in every reachable state (it is preserved by the only functions that write the two
-   fields; the frame lemmas for all other steps are not written), that a poll happens no later than the end of the
+   RSeq (sequence numbers below the counter) is a closed invariant of every interpreter step, hence holds in every
+   reachable state.
+   NOT proved: that a poll happens no later than the end of the
    enclosing tree / frame (structural in Machine.exec: IPoll before and after every system command and in TFrame), and
    the "exactly one RUN per reactor" link from a scheduled reaction to its run (C02 partial).  Those rest on the
    correspondence (poll profile: inserts, removals, re-inserts and despawns between polls, direct and in frames). *)
@@ -28,6 +29,12 @@ Proof. exact remove_command_records_iff_removed. Qed.
 Theorem sequence_numbers_stay_below_the_counter_partial : forall w, RSeq w ->
   (forall c e, RSeq (push_removed c e w)) /\ (forall cs e, RSeq (push_removed_all cs e w)) /\ RSeq (clear_trackers w).
 Proof. intros w H. split; [intros; apply RSeq_push; exact H|]. split; [intros; apply RSeq_push_all; exact H|apply RSeq_clear; exact H]. Qed.
+Theorem sequence_numbers_invariant_everywhere : forall (P : program) (fuel : nat) (i : instr) (w w' : world),
+  RSeq w -> exec P fuel i w = Ok w' -> RSeq w'.
+Proof. exact RSeq_exec. Qed.
+Theorem a_removal_is_read_once_in_every_reachable_state : forall (P : program) (fuel : nat) (w' : world), run P fuel = Ok w' ->
+  forall chk, snd (poll_removals (fst (poll_removals chk w')) w') = [].
+Proof. intros P fuel w' E chk. apply a_removal_is_read_once. eapply RSeq_reachable; eauto. Qed.
 Theorem poll_schedules_every_unread_removal_partial : forall chk w,
   poll_removals chk w = (map (fun x => (fst x, removed_seq w)) chk,
                          flat_map (fun x => flat_map (removal_cmds_for (fst x) w) (unread (fst x) (snd x) (removed w))) chk).
@@ -73,6 +80,8 @@ Proof. eexists. split; [vm_compute; reflexivity|]. vm_compute. reflexivity. Qed.
 Print Assumptions removal_is_recorded_once_partial.
 Print Assumptions nothing_recorded_for_a_component_not_removed_partial.
 Print Assumptions sequence_numbers_stay_below_the_counter_partial.
+Print Assumptions sequence_numbers_invariant_everywhere.
+Print Assumptions a_removal_is_read_once_in_every_reachable_state.
 Print Assumptions poll_schedules_every_unread_removal_partial.
 Print Assumptions removal_reactions_go_to_exactly_the_registered_reactors_partial.
 Print Assumptions a_removal_is_read_once_partial.
